@@ -447,6 +447,19 @@ def run(ck, facts):
     ck.expect(ok_ind, "R7", "DiplomatWrite::flush/calls-callback-on-every-path", "(self.flush)(self) on every path",
               "DiplomatWrite::flush does not call the installed flush callback on every path (%d indirect calls): after a failed grow the chunks accepted so far are never terminated / published" % len(ind), C.loc(fm))
 
+    # --- R7 (cont.) a method that takes the write handle returns through it however its `()` return is spelled: in lower_return_type every unit position
+    # (no return type, `-> ()`, `Result<(), E>`, `Option<()>`) takes the write-or-unit value computed once from the presence of the handle; `SuccessType::Unit` is
+    # written only where that value is computed
+    core_ = facts.core
+    lrt = core_.fn("hir::lowering::LoweringContext::lower_return_type", optional=True)
+    if lrt is None:
+        ck.bad("R7", "lower_return_type/anchor", "lower_return_type not found", None)
+    else:
+        units = [x for x in C.walk(C.fn_body(lrt)) if x.get("k") in ("def", "call") and (x.get("ctor") or x.get("p") or "").endswith("SuccessType::Unit")]
+        writes_ = [x for x in C.walk(C.fn_body(lrt)) if x.get("k") in ("def", "call") and (x.get("ctor") or x.get("p") or "").endswith("SuccessType::Write")]
+        ck.expect(len(units) == 1 and len(writes_) == 1, "R7", "lower_return_type/unit-positions-take-write-or-unit", "one SuccessType::Unit, one SuccessType::Write",
+                  "lower_return_type spells SuccessType::Unit %d times (SuccessType::Write %d): some spelling of a unit return (`-> ()`, `Result<(), E>`, ...) ignores the DiplomatWrite parameter, which was already "
+                  "stripped from the parameter list -- the C/C++ API loses the string output and no longer passes a writer to the Rust function that expects one" % (len(units), len(writes_)), C.loc(lrt))
     # --- R10 Rust-owned grow
     # the capacity the new writer publishes is the capacity of the block it allocated (write_str trusts `cap` and copies up to it without asking grow)
     cr_ = rt.fn("diplomat_buffer_write_create")
